@@ -47,12 +47,18 @@ type cfg struct {
 	m, k int
 	prog []step
 	p, d int
+	// concurrent family
+	par     [][]step
+	handler bool
 }
 
 func (c cfg) name() string {
 	t := "tcp"
 	if c.unix {
 		t = "unix"
+	}
+	if c.par != nil {
+		return fmt.Sprintf("%s %s M=%d K=%d concurrent=%v handler=%v", t, c.mode, c.m, c.k, c.par, c.handler)
 	}
 	return fmt.Sprintf("%s %s M=%d K=%d prog=%v", t, c.mode, c.m, c.k, c.prog)
 }
@@ -240,6 +246,95 @@ func body(c cfg) func() {
 	}
 }
 
+// body2: two threads write concurrently (with an OnWrittenSize handler installed, which nbio
+// calls from inside Write). Every Write is atomic with respect to the bound, so whatever the
+// order, the bytes held afterwards never exceed M and the counter equals them; sizes are chosen
+// so that in both serial orders the later call must be rejected.
+func body2(c cfg) func() {
+	return func() {
+		vsys.Configure(true, false)
+		tr := track.New(track.Exact)
+		conf := nbio.Config{Name: "c17", NPoller: 1, ReadBufferSize: 16, MaxWriteBufferSize: c.m, BodyAllocator: tr}
+		c.mode.Apply(&conf)
+		g := nbio.NewEngine(conf)
+		reported := 0
+		if c.handler {
+			g.OnWrittenSize(func(_ *nbio.Conn, _ []byte, n int) { reported += n })
+		}
+		closes := 0
+		g.OnClose(func(_ *nbio.Conn, err error) { closes++ })
+		if err := g.Start(); err != nil {
+			vsched.Fail("harness|engine start: %v", err)
+			return
+		}
+		conn, peer := ekit.Stream(c.unix, c.k, 64)
+		if _, err := g.AddConn(conn); err != nil {
+			vsched.Fail("harness|AddConn: %v", err)
+			return
+		}
+		counters := map[string]int{}
+		res := make([]string, len(c.par))
+		for i := range c.par {
+			i := i
+			vsched.GoNamed(fmt.Sprintf("writer%d", i), func() {
+				for j, st := range c.par[i] {
+					var err error
+					switch st.kind {
+					case "W":
+						_, err = conn.Write(ekit.Payload(10*i+j+1, st.bufs[0]))
+					case "V":
+						var in [][]byte
+						for _, b := range st.bufs {
+							in = append(in, ekit.Payload(10*i+j+1, b))
+						}
+						_, err = conn.Writev(in)
+					}
+					switch {
+					case err == nil:
+						res[i] += "a"
+					case strings.Contains(err.Error(), "overflow"):
+						res[i] += "r"
+					default:
+						res[i] += "e"
+					}
+				}
+			})
+		}
+		vsched.WaitIdle()
+		conn.Lock()
+		sn := conn.VerifSnapshot()
+		conn.Unlock()
+		all := strings.Join(res, "|")
+		if strings.Contains(all, "r") {
+			counters["rejections"]++
+		}
+		if !sn.Closed {
+			held := sum(sn.Queue)
+			if held > c.m {
+				vsched.Fail("bound-exceeded|concurrent writers %v (results %s): %d unsent bytes are held, maximum is %d (queue %v, %d bytes in the kernel)", c.par, all, held, c.m, sn.Queue, peer.Queued())
+			}
+			if sn.Left != held {
+				vsched.Fail("accounting-drift|concurrent writers %v: the connection's backlog counter is %d but %d unsent bytes are queued", c.par, sn.Left, held)
+			}
+			if held == c.m {
+				counters["accepted_at_exactly_M"]++
+			}
+		}
+		if strings.Contains(all, "r") != (closes == 1) {
+			vsched.Fail("overflow-no-close|results %s but %d close notifications", all, closes)
+		}
+		if c.handler && reported != peer.Queued()+len(peer.Got) {
+			counters["written_size_reports_differ_not_judged"]++
+		}
+		st := vsys.GetStats()
+		if st.Eagains > 0 {
+			counters["backpressure_execs"] = 1
+		}
+		lastCounters = counters
+		lastOutcome = all
+	}
+}
+
 func check(r *vsched.Result) string {
 	for _, b := range r.Blocked {
 		if b.Name == "main" {
@@ -259,7 +354,11 @@ func build(tier string) []*vkit.Scenario {
 	thorough := tier == "thorough"
 	var out []*vkit.Scenario
 	add := func(c cfg) {
-		out = append(out, &vkit.Scenario{Name: c.name(), Body: body(c), Check: check, P: c.p, D: c.d,
+		b := body(c)
+		if c.par != nil {
+			b = body2(c)
+		}
+		out = append(out, &vkit.Scenario{Name: c.name(), Body: b, Check: check, P: c.p, D: c.d,
 			Counters: func() map[string]int { return lastCounters }, Outcome: func() string { return lastOutcome },
 			NonTrivial: func(m map[string]int) bool { return m["rejections"] > 0 || m["accepted_at_exactly_M"] > 0 }})
 	}
@@ -289,6 +388,24 @@ func build(tier string) []*vkit.Scenario {
 		}
 		for _, mode := range ekit.Modes {
 			for _, unix := range []bool{false, true} {
+				// two concurrent writers: in either serial order the later one does not fit
+				for _, par := range [][][]step{
+					{{W(m)}, {W(k + 1)}},
+					{{W(k + m)}, {W(1)}},
+					{{W(k), W(m)}, {W(1)}},
+					{{V(k, m-1)}, {W(2)}},
+				} {
+					for _, h := range []bool{true, false} {
+						if !h && !thorough && (unix || mode != ekit.LT) {
+							continue
+						}
+						p := 2
+						if thorough {
+							p = 3
+						}
+						add(cfg{mode: mode, unix: unix, m: m, k: k, par: par, handler: h, p: p, d: 1})
+					}
+				}
 				for _, pr := range progs {
 					p, d := 2, 2
 					if thorough {
@@ -308,7 +425,7 @@ func main() {
 	defer ekit.CleanupFiles()
 	vkit.Main(&vkit.Spec{
 		Property: "C17", Level: "model_checking",
-		Rule: "one scenario = transport x epoll mode x (M, K) x program of Write/Writev/Sendfile calls with sizes around M and drain steps (fill/drain cycles); every interleaving of the calls with the poller's flush within the preemption bound and every kernel answer within the deviation bound is executed; oracle: held bytes <= M and counter == held at every observation under the connection mutex, and reject iff held + len(input) > M; non-trivial = a rejection or an acceptance at exactly M was observed",
+		Rule: "one scenario = transport x epoll mode x (M, K) x program of Write/Writev/Sendfile calls with sizes around M and drain steps (fill/drain cycles); every interleaving of the calls with the poller's flush within the preemption bound and every kernel answer within the deviation bound is executed; oracle: held bytes <= M and counter == held at every observation under the connection mutex, and reject iff held + len(input) > M; non-trivial = a rejection or an acceptance at exactly M was observed; plus a family with two concurrently writing threads (with and without an OnWrittenSize handler, which nbio calls from inside Write) whose sizes are such that in both serial orders the later call does not fit",
 		Assumptions: []string{
 			"queued file ranges (Sendfile) are not bytes held and are not judged",
 			"a write larger than M is rejected even if the kernel could take part of it (the threshold test precedes the write), as the statement's 'would exceed'",
